@@ -1,37 +1,42 @@
-"""tools/collect_seeded3.py — add the round-3 seeded changes (/tmp/seed3) to /verif/seeded/<id>/r3m<k> with the detection
-runs before (detect2_*.txt: as first run, i.e. what the checks of that moment said) and after strengthening (detect3_*.txt)."""
+"""tools/collect_seeded3.py [3|4] — add the round-3 (/tmp/seed3) or round-4 (/tmp/seed4) seeded changes to
+/verif/seeded/<id>/r<round>m<k> with the detection runs before (detect2_*.txt: what the checks of that moment said) and after
+strengthening (detect3_*.txt, written by the final matrix run)."""
 import glob
 import json
 import os
 import re
 import shutil
+import sys
+
+ROUND = sys.argv[1] if len(sys.argv) > 1 else "3"
+SRC = f"/tmp/seed{ROUND}"
 
 DST = "/verif/seeded"
 confirm = {}
-for line in open("/tmp/seed3/confirm.log"):
+for line in open(f"{SRC}/confirm.log"):
     m = re.match(r"(C\d+)/(\w+) clean=(\d+) patched=(\d+) suite: (\d+) failed, (\d+) passed", line)
     if m:
         confirm[(m.group(1), m.group(2))] = {"demo_exit_clean": int(m.group(3)), "demo_exit_patched": int(m.group(4)),
                                               "failing_tests_with_patch": int(m.group(5)), "passing_tests_with_patch": int(m.group(6))}
 n = 0
-for pid in sorted(os.listdir("/tmp/seed3")):
+for pid in sorted(os.listdir(SRC)):
     if not re.fullmatch(r"C\d+", pid):
         continue
     for m in ("m1", "m2"):
-        d = f"/tmp/seed3/{pid}/{m}"
+        d = f"{SRC}/{pid}/{m}"
         c = confirm.get((pid, m))
         if not (os.path.exists(f"{d}/patch.diff") and c):
             continue
         if c["demo_exit_clean"] != 0 or c["demo_exit_patched"] == 0 or c["failing_tests_with_patch"] != 11 or c["passing_tests_with_patch"] != 1212:
             continue
-        out = f"{DST}/{pid}/r3{m}"
+        out = f"{DST}/{pid}/r{ROUND}{m}"
         os.makedirs(out, exist_ok=True)
         for f in ("patch.diff", "demo.py"):
             shutil.copy(f"{d}/{f}", f"{out}/{f}")
         for f in glob.glob(f"{d}/detect[23]_*.txt"):
             shutil.copy(f, out)
         meta = json.load(open(f"{d}/meta.json")) if os.path.exists(f"{d}/meta.json") else {}
-        meta.update({"property": pid, "breaks_property": pid, "round": 3,
+        meta.update({"property": pid, "breaks_property": pid, "round": int(ROUND),
                      "confirmed_by_me": dict(c, baseline_failing_tests=11, how="scratch worktree at the current /repo HEAD: "
                                              "PYTHONPATH=<worktree> demo.py clean / patched; full suite with the patch")})
         det = {}
@@ -43,7 +48,7 @@ for pid in sorted(os.listdir("/tmp/seed3")):
                 det.setdefault(tagname, {})[prop] = {"detected": bool(viol), "with_concrete_witness": any(not s for _, s in viol),
                                                       "first_obligation": viol[0][0] if viol else None,
                                                       "not_proved_lines": len(re.findall(r"^NOT-PROVED", txt, re.M))}
-        meta["checks_run_round3"] = det
+        meta[f"checks_run_round{ROUND}"] = det
         json.dump(meta, open(f"{out}/meta.json", "w"), indent=1)
         n += 1
         print(pid, m, {k: {p: v["detected"] for p, v in d_.items()} for k, d_ in det.items()})
